@@ -1083,8 +1083,8 @@ Section KeyOps.
   Theorem public_key_digest_spec x y :
     public_key_digest NO (Some (x, y)) = Some (sm3 (4%N :: point_bytes NO (Some (x, y)))).
   Proof.
-    unfold public_key_digest. f_equal.
-    set (m := (4%N :: point_bytes NO (Some (x, y)))). clearbody m.
+    unfold public_key_digest.
+    set (m := (4%N :: point_bytes NO (Some (x, y)))). clearbody m. apply f_equal.
     change (sm3_update sm3_init m) with (fold_left sm3_update [m] sm3_init).
     rewrite sm3_stream. cbn [concat]. rewrite app_nil_r. reflexivity.
   Qed.
@@ -1186,8 +1186,8 @@ Section KeyOps.
     destruct (Nat.eqb idlen 0 || N.ltb 8191 (N.of_nat idlen)); [discriminate|].
     destruct (pre_compute en) as [[pre en']|]; [|discriminate].
     apply IOk_inj in Hi. injection Hi as <- <-.
-    rewrite (sign_updates NO chunks1). unfold sign_reset. cbn [sc_saved sc_d sc_fast sc_pre sc_num].
-    rewrite (sign_updates NO chunks2). cbn [sc_sm3]. apply stream_digest.
+    rewrite (sign_updates chunks1). unfold sign_reset. cbn [sc_saved sc_d sc_fast sc_pre sc_num].
+    rewrite (sign_updates chunks2). cbn [sc_sm3]. apply stream_digest.
   Qed.
 
   Theorem verify_reset_stream P buf idlen z c chunks1 chunks2 :
